@@ -38,6 +38,23 @@ CLAIMED = {
             "group law, |G|<=1, inverse, cascaded and gradient options for all distances; propagate end to end "
             "(compose, linear, list, zero, coordinates/metadata, per-frequency energy + Parseval).",
             '§2 C17', TRUST + "; pocketfft = exact DFT; wavelength/spacing concrete; coordinates starting at 0"),
+    'C01': ('model_checking',
+            "calc_holo == sum_xy |scaling*calc_field + (a,b)/|(a,b)||^2, calc_intensity == sum_xy |calc_field|^2, "
+            "scaling 0 -> exactly 1, calc_field == stub field * exp(-ikz) (superposed for collections), result "
+            "coordinates/metadata and input purity, for ALL field values, polarizations, scalings and depths on "
+            "grids up to 3x4 and point detectors up to 4 points, through the real interface/imageformation code.",
+            '§2 C01', TRUST + "; theory kernel = arbitrary per-point field; finiteness and Fortran COMMON state outside"),
+    'C16': ('model_checking',
+            "Welford accumulator == batch mean/variance for every push order (n<=6), load_average mean and relative "
+            "noise independent of file order, update_metadata purity / unit polarization / per-channel dict "
+            "alignment, pixel (i,j) at (i*sx, j*sy) for symbolic spacing - all for symbolic pixel values.",
+            '§2 C16', TRUST + "; load_image stubbed; HDF5/TIFF/PIL byte I/O outside the claim"),
+    'C18': ('model_checking',
+            "normalize (mean 1, idempotent, scale invariant), bg_correct formula / self-division / mismatch "
+            "rejection, subimage values+coordinates (enumerated crops, symbolic pixels), accumulator == batch, "
+            "metadata kept - decided for all pixel values.",
+            '§2 C18', TRUST + "; zero_filter assumed identity on positive images; zero_filter, detrend, center_find "
+            "outside the claim"),
 }
 
 NOT_YET = {}
